@@ -265,10 +265,11 @@ PROPS = {
     },
     "C17": {
         "module": "HctlProofs.Props.C17",
-        "extra_modules": ["HctlProofs.Lemmas.CliModel", "HctlProofs.Lemmas.CliCounts"],
+        "extra_modules": ["HctlProofs.Lemmas.CliModel", "HctlProofs.Lemmas.CliCounts", "HctlProofs.Lemmas.DriverCli"],
         "theorems": ["Hctl.C17.mem_loadFormulae", "Hctl.C17.loadFormulae_order", "Hctl.C17.loadFormulae_idem", "Hctl.C17.trim_trim",
                      "Hctl.C17.analyse_eq_api_ext", "Hctl.C17.analyse_eq_api_plain", "Hctl.C17.analyse_correct",
-                     "Hctl.C17.parseAll_of_prep", "Hctl.C17.mem_listed", "Hctl.C17.counts_mono", "Hctl.C17.reported_counts_le"],
+                     "Hctl.C17.parseAll_of_prep", "Hctl.C17.mem_listed", "Hctl.C17.counts_mono", "Hctl.C17.reported_counts_le",
+                     "Hctl.C17.netFamily_driverNet", "Hctl.C17.driverNet_premises", "Hctl.C17.analyse_correct_driver"],
         "ks": ["k9"],
         "spec_tied": ["k9"],
         "bins": True,
